@@ -366,3 +366,107 @@ func ParseQuery(inputQuery string) (Query, error) {
 		SelectOutput:        listener.SelectOutput,
 	}, nil
 }
+
+// maxPredicateDepth bounds the expansion of predicates that call predicates (or themselves).
+const maxPredicateDepth = 16
+
+type predicateDecl struct {
+	params []string
+	body   IExpressionContext
+}
+
+type conditionExpander struct {
+	decls map[string][]predicateDecl
+	out   strings.Builder
+	prev  string
+}
+
+func (e *conditionExpander) write(text string) {
+	if e.out.Len() > 0 {
+		e.out.WriteString(" ")
+	}
+	e.out.WriteString(text)
+	e.prev = text
+}
+
+// emit writes the tokens of t separated by single spaces. An identifier that names a formal
+// parameter (and is not a member name after '.') is replaced by the actual argument; a call of
+// a declared predicate in primary position is replaced by its parenthesised body.
+func (e *conditionExpander) emit(t antlr.Tree, subst map[string]string, depth int) {
+	switch n := t.(type) {
+	case antlr.TerminalNode:
+		text := n.GetText()
+		if n.GetSymbol().GetTokenType() == QueryParserIDENTIFIER && e.prev != "." {
+			if replacement, ok := subst[text]; ok {
+				text = replacement
+			}
+		}
+		e.write(text)
+		return
+	case *Predicate_invocationContext:
+		if _, inPrimary := n.GetParent().(*PrimaryContext); inPrimary && depth < maxPredicateDepth {
+			var args []IArgumentContext
+			if n.Argument_list() != nil {
+				args = n.Argument_list().AllArgument()
+			}
+			for _, decl := range e.decls[n.Predicate_name().GetText()] {
+				if len(decl.params) != len(args) {
+					continue
+				}
+				inner := make(map[string]string, len(args))
+				for i, arg := range args {
+					sub := &conditionExpander{decls: e.decls}
+					sub.emit(arg, subst, depth)
+					inner[decl.params[i]] = "( " + sub.out.String() + " )"
+				}
+				e.write("(")
+				e.emit(decl.body, inner, depth+1)
+				e.write(")")
+				return
+			}
+		}
+	}
+	for i := 0; i < t.GetChildCount(); i++ {
+		e.emit(t.GetChild(i), subst, depth)
+	}
+}
+
+// ExpandedCondition returns the WHERE condition of a query as it is handed to the expression
+// evaluator: the condition's own tokens separated by single spaces, with every call of a declared
+// predicate replaced by the predicate's body in which the formal parameters are replaced by the
+// call's arguments. It is built from the parse tree, so it does not depend on the query's
+// layout, on keywords occurring inside string literals or on identifiers that contain one another.
+// A query without WHERE has the empty condition.
+func ExpandedCondition(inputQuery string) (string, error) {
+	inputQuery = normalizeWhitespace(inputQuery)
+	lexer := NewQueryLexer(antlr.NewInputStream(inputQuery))
+	stream := antlr.NewCommonTokenStream(lexer, antlr.TokenDefaultChannel)
+	p := NewQueryParser(stream)
+	errorListener := &customErrorListener{}
+	lexer.RemoveErrorListeners()
+	lexer.AddErrorListener(errorListener)
+	p.RemoveErrorListeners()
+	p.AddErrorListener(errorListener)
+	tree, ok := p.Query().(*QueryContext)
+	if len(errorListener.errors) > 0 || !ok {
+		return "", fmt.Errorf("\n%s", strings.Join(errorListener.errors, "\n"))
+	}
+	if tree.Expression() == nil {
+		return "", nil
+	}
+	expander := &conditionExpander{decls: map[string][]predicateDecl{}}
+	if tree.Predicate_declarations() != nil {
+		for _, d := range tree.Predicate_declarations().AllPredicate_declaration() {
+			decl := predicateDecl{body: d.Expression()}
+			if d.Parameter_list() != nil {
+				for _, param := range d.Parameter_list().AllParameter() {
+					decl.params = append(decl.params, param.IDENTIFIER().GetText())
+				}
+			}
+			name := d.Predicate_name().GetText()
+			expander.decls[name] = append(expander.decls[name], decl)
+		}
+	}
+	expander.emit(tree.Expression(), nil, 0)
+	return expander.out.String(), nil
+}
